@@ -13,11 +13,12 @@ HERE = os.path.dirname(os.path.abspath(__file__))
 def run_twins(param, tier):
     t0 = time.time()
     timeout = int(param.get("per_condition_timeout", 15))
-    cmd = [sys.executable, "-m", "crosshair", "check", "--report_all", f"--per_condition_timeout={timeout}", os.path.join(HERE, "twins.py")]
+    fname = param.get("module", "twins") + ".py"
+    cmd = [sys.executable, "-m", "crosshair", "check", "--report_all", f"--per_condition_timeout={timeout}", os.path.join(HERE, fname)]
     p = subprocess.run(cmd, capture_output=True, text=True, timeout=1800, cwd=os.path.dirname(os.path.dirname(HERE)))
     out = p.stdout + p.stderr
     confirmed, other, viol = [], [], []
-    src = open(os.path.join(HERE, "twins.py")).read().splitlines()
+    src = open(os.path.join(HERE, fname)).read().splitlines()
 
     def fn_at(line):
         for i in range(min(line, len(src)) - 1, -1, -1):
@@ -27,7 +28,7 @@ def run_twins(param, tier):
         return "?"
 
     for ln in out.splitlines():
-        m = re.match(r".*twins\.py:(\d+): (info|error): (.*)", ln)
+        m = re.match(r".*twins\w*\.py:(\d+): (info|error): (.*)", ln)
         if not m:
             continue
         line, kind, msg = int(m.group(1)), m.group(2), m.group(3)
@@ -49,7 +50,7 @@ def replay_twin(param, model):
     """call the twin with the values CrossHair reported; reproduced iff it returns False / raises"""
     import importlib
 
-    tw = importlib.import_module("vf.xh.twins")
+    tw = importlib.import_module("vf.xh." + param.get("module", "twins"))
     call = model.get("call", "")
     m = re.match(r"(\w+)\((.*)\)", call)
     if not m or not hasattr(tw, m.group(1)):
